@@ -116,6 +116,7 @@ def check(ctx):
     _call_ordering(ctx, rep)
     _destructive_kernels(ctx, rep, model)
     _attribute_definedness(rep, model, ops)
+    _block_call(rep, model)
     return rep
 
 
@@ -613,3 +614,93 @@ def _call_ordering(ctx, rep):
     else:
         rep.violation('R7', '_default_call_out_of_place', 'does not allocate '
                       'from op.range and return it', OPFILE, oop.lineno)
+
+
+# --------------------------------------------------------------------------
+# R10: block operators -- both arms of ProductSpaceOperator._call compute the
+# block matrix-vector product for every storage order of the blocks
+def _block_call(rep, model):
+    from ..symex import Interp, Inst, Vec, PVec, SpaceV, Rec, PyRaise
+    from ..opalg import OpHooks
+    from .. import vs
+    PSO = 'odl/operator/pspace_ops.py'
+    ci = model.get('ProductSpaceOperator')
+    if ci is None or '_call' not in ci.methods:
+        raise AnalysisError('anchor vanished: ProductSpaceOperator._call')
+    line = ci.methods['_call'].lineno
+
+    class BH(OpHooks):
+        def on_getattr(self, interp, obj, name):
+            if isinstance(obj, Rec) and name in obj.attrs:
+                return obj.attrs[name]
+            return OpHooks.on_getattr(self, interp, obj, name)
+
+    layouts = [
+        ('row-major 2x2', [0, 0, 1, 1], [0, 1, 0, 1]),
+        ('column-major 2x2 (as built by adjoint)', [0, 1, 0, 1],
+         [0, 0, 1, 1]),
+        ('unsorted with repeated row', [1, 0, 1, 0, 1], [0, 0, 1, 1, 0]),
+        ('empty second row', [0, 0], [0, 1]),
+        ('empty first row', [1], [1]),
+        ('single column', [0, 1], [0, 0]),
+    ]
+    n = 0
+    for lname, rows, cols in layouts:
+        for with_out in (False, True):
+            cons = 'ProductSpaceOperator._call[%s,%s]' % (
+                lname, 'in-place' if with_out else 'out-of-place')
+            n += 1
+            try:
+                I = Interp(model, {}, BH())
+                Xs = [SpaceV('X%d' % j, 'R') for j in range(2)]
+                Ys = [SpaceV('Y%d' % i, 'R') for i in range(2)]
+                dom = SpaceV('X0xX1', 'R')
+                dom.parts = Xs
+                ran = SpaceV('Y0xY1', 'R')
+                ran.parts = Ys
+                ops = [I.opsym('A%d' % k, Xs[c], Ys[r], True)
+                       for k, (r, c) in enumerate(zip(rows, cols))]
+                inst = Inst(ci)
+                inst.attrs['_ProductSpaceOperator__ops'] = Rec(
+                    'COOMatrix', data=list(ops), row=list(rows),
+                    col=list(cols), shape=(2, 2))
+                inst.attrs['_Operator__domain'] = dom
+                inst.attrs['_Operator__range'] = ran
+                inst.attrs['_Operator__is_linear'] = True
+                inst.attrs['_Operator__is_functional'] = False
+                x = PVec([Vec(vs.sym('x%d' % j), Xs[j]) for j in range(2)],
+                         dom)
+                kw = {}
+                out = None
+                if with_out:
+                    out = PVec([Vec(vs.sym('old%d' % i), Ys[i])
+                                for i in range(2)], ran)
+                    kw['out'] = out
+                res = I.call(I.getattr_value(inst, '_call'), [x], kw)
+                if with_out and res is not None and res is not out:
+                    rep.violation('R10', cons, 'returns another object '
+                                  'than `out`', PSO, line)
+                    continue
+                got = out if with_out else res
+                probs = []
+                for i in range(2):
+                    want = {}
+                    for k, (r, c) in enumerate(zip(rows, cols)):
+                        if r == i:
+                            want = vs.add(want, ops[k].term.apply(
+                                x.parts[c].val), 1)
+                    g = got.parts[i].val
+                    if vs.freeze(g) != vs.freeze(want):
+                        probs.append('row %d is %s, the block product is %s'
+                                     % (i, vs.show(g), vs.show(want)))
+                if probs:
+                    rep.violation('R10', cons, '; '.join(probs[:2]), PSO,
+                                  line)
+                else:
+                    rep.holds('R10', cons, 'rows are the sums of their '
+                              'blocks')
+            except Undecided as e:
+                rep.undecided('R10', cons, str(e), PSO, line)
+            except PyRaise as e:
+                rep.violation('R10', cons, 'raises %s' % e.name, PSO, line)
+    rep.floor('R10', 'block layouts', n, 12)
